@@ -374,4 +374,56 @@ theorem pci_disconnect {c : Ctx} {addrs : List Addr} {s s' : Store} {Y : List Bl
           (foldl_inv (fun x => Sc x _) _ _ _ (Sc.refl _) (fun x op _ hx => (purgeSpenders_sc c.own x op).trans hx))
       exact (pci_pfr H1 fr).congr rfl rfl
 
+-- ------------------------------------------------------------------ a concrete instance
+
+namespace Ex
+
+/-- the store of `Ex` after the extension block B1 (T1 confirmed: its credit T1:0 of W1 is mined) -/
+def s1 : Store := (processBlock { ctx with node := node1 } s0 x0.v b1).1
+
+theorem pci1 : PCI ctx ["A2"] s1 ([g] ++ [b1]) := by
+  have h2 : (processBlock { ctx with node := node1 } s0 x0.v b1).2.2 = true := by decide
+  have hst : istep 1 ctx "W2" ["A2"] x0 (.notify node1 b1) =
+      some { x0 with s := s1, v := (processBlock { ctx with node := node1 } s0 x0.v b1).2.1, node := node1 } := by
+    simp only [istep]
+    rw [if_neg (by decide)]
+    exact (if_pos (show (processBlock { ctx with node := node1 } x0.s x0.v b1).2.2 = true from h2)).trans rfl
+  exact pci_istep pci0 dom.1 hst
+
+/-- disconnecting B1 again: every hypothesis of `pci_disconnect` holds at `s1`; T1 is pending again with its credit
+    re-created from the mined one -/
+example (s2 : Store) (h : disconnectBlock { ctx with node := node1 } s1 b1.height = .ok s2) :
+    PCI ctx ["A2"] s2 [g] := by
+  refine (pci_disconnect (c := { ctx with node := node1 }) (pci1.own rfl) h (by decide) ?_ ?_ (by decide) (by decide)).own rfl
+  · intro bh txs hg
+    have : AMap.get s1.blocks b1.height = some ("B1", ["T1"]) := by decide
+    rw [this] at hg
+    cases hg
+    refine ⟨rfl, ?_⟩
+    intro id hid loc hl
+    simp only [List.mem_cons, List.not_mem_nil, or_false] at hid
+    subst hid
+    have : AMap.get s1.txrecs ("T1", ⟨b1.height, b1.id⟩) = some ("B1", 0) := by decide
+    rw [this] at hl
+    cases hl
+    exact ⟨t1, by decide, rfl, by decide⟩
+  · intro t ht i cr hg _
+    simp only [b1, List.mem_cons, List.not_mem_nil, or_false] at ht
+    subst ht
+    have hc : s1.credits.map (·.1) = [⟨"T1", ⟨1, "B1"⟩, 0⟩] ∧ s1.credits.map (·.2.sh) = ["A1"] := by decide
+    have hm := MW.Lemmas.LedgerPending.mem_of_get hg
+    have h1 : (⟨t1.id, ⟨b1.height, b1.id⟩, i⟩ : CredKey) ∈ s1.credits.map (·.1) := List.mem_map.2 ⟨_, hm, rfl⟩
+    have h2 : cr.sh ∈ s1.credits.map (·.2.sh) := List.mem_map.2 ⟨_, hm, rfl⟩
+    rw [hc.1, List.mem_singleton] at h1
+    rw [hc.2, List.mem_singleton] at h2
+    injection h1 with _ _ hi
+    subst hi
+    exact ⟨⟨"A1", 5, .std⟩, "W1", false, rfl, h2.symm, by decide, rfl⟩
+
+theorem disc_runs : (disconnectBlock { ctx with node := node1 } s1 b1.height).toOption.map
+    (fun x => (x.pending.map (·.1), x.pendCred.map (·.1))) = some (["T1", "T2", "T3"], [("T1", 0), ("T2", 0), ("T3", 0)]) := by
+  decide
+
+end Ex
+
 end MW.Lemmas.RemovePend
